@@ -14,6 +14,8 @@ EXTENDS Integers, Sequences, FiniteSets, TLC, Json, SequencesExt, IOUtils
 CONSTANTS MaxSize,      \* processes 1..MaxSize
           StartSet,     \* candidate starts
           MaxLen,       \* stop ranges over start..start+MaxLen
+          MaxLoops,     \* distributed loops run one after another on the
+                        \* same processes (same configuration objects)
           TableFile,    \* "" or path: export the Ranges table as JSON
           HonourStart   \* TRUE: the code as it is; FALSE: the variant that
                         \* ignores `start` (defect fixed in /repo, kept as
@@ -80,9 +82,10 @@ ASSUME TableFile = "" \/
 VARIABLES size, start, stop,
           pos,      \* pos[r]: next index process r will handle
           work,     \* work[i]: how many times index i has been handled
-          phase     \* "run" | "reduced"
+          phase,    \* "run" | "reduced"
+          loop      \* how many loops have been started
 
-vars == <<size, start, stop, pos, work, phase>>
+vars == <<size, start, stop, pos, work, phase, loop>>
 
 Init ==
   /\ size \in 1 .. MaxSize
@@ -91,6 +94,7 @@ Init ==
   /\ pos = [r \in Ranks(size) |-> Lo(r, size, start, stop)]
   /\ work = [i \in (start - 2) .. (stop + 2) |-> 0]
   /\ phase = "run"
+  /\ loop = 1
 
 Step(r) ==
   /\ phase = "run"
@@ -98,17 +102,28 @@ Step(r) ==
   /\ pos[r] \in DOMAIN work          \* (the defective variant may leave it)
   /\ work' = [work EXCEPT ![pos[r]] = @ + 1]
   /\ pos' = [pos EXCEPT ![r] = @ + 1]
-  /\ UNCHANGED <<size, start, stop, phase>>
+  /\ UNCHANGED <<size, start, stop, phase, loop>>
 
 Reduce ==
   /\ phase = "run"
   /\ \A r \in Ranks(size) : pos[r] >= Hi(r, size, start, stop)
   /\ phase' = "reduced"
-  /\ UNCHANGED <<size, start, stop, pos, work>>
+  /\ UNCHANGED <<size, start, stop, pos, work, loop>>
+
+\* the next distributed loop of the program: a new range on the same
+\* processes (whatever the configuration objects remember from the previous
+\* loop must not matter)
+NewLoop(st, len) ==
+  /\ phase = "reduced" /\ loop < MaxLoops
+  /\ start' = st /\ stop' = st + len
+  /\ pos' = [r \in Ranks(size) |-> Lo(r, size, st, st + len)]
+  /\ work' = [i \in (st - 2) .. (st + len + 2) |-> 0]
+  /\ phase' = "run" /\ loop' = loop + 1
+  /\ UNCHANGED size
 
 StepAny == \E r \in Ranks(size) : Step(r)
 
-Next == StepAny \/ Reduce
+Next == StepAny \/ Reduce \/ (\E st \in StartSet, len \in 0 .. MaxLen : NewLoop(st, len))
 
 Spec == Init /\ [][Next]_vars /\ WF_vars(Next)
 
@@ -128,12 +143,12 @@ ReducedEqualsSerial ==
 
 PartitionHere == Partition(size, start, stop)
 
-Terminates == <>(phase = "reduced")
+Terminates == []<>(phase = "reduced")
 
 (* one-state specification used when only the table / the static partition
    property over the whole instance set is wanted *)
 TableFileEnv == IF "TABLE_FILE" \in DOMAIN IOEnv THEN IOEnv.TABLE_FILE ELSE ""
 TableSpec == phase = "table" /\ size = 1 /\ start = 0 /\ stop = 0
-             /\ pos = <<>> /\ work = <<>> /\ [][FALSE]_vars
+             /\ pos = <<>> /\ work = <<>> /\ loop = 0 /\ [][FALSE]_vars
 PartitionEverywhereInv == PartitionEverywhere
 =============================================================================
